@@ -733,7 +733,7 @@ class P(Prop):
         ret = t.operate(self.Operator.FILTER, "a", kern, "b")
         res = {"out": [canon(a) for a in t.getAnalyticalFeature("b")], "ret": [canon(a) for a in ret],
                "kafter": [canon(a) for a in kern] if isinstance(kern, list) else None,
-               "input_after": [canon(a) for a in t.getAnalyticalFeature("a")]}
+               "input_after": [canon(a) for a in t.getAnalyticalFeature("a")], "window": self.window_of(k)}
         if case["via"] == "feat":
             res["weights_after"] = [canon(a) for a in t.getAnalyticalFeature("w")]
         return res
@@ -741,14 +741,17 @@ class P(Prop):
     def ext_requests(self, case):
         k = case["k"]
         ks = "list " + tok_list(self.ext_tok(a) for a in k["w"]) if k["t"] == "list" else self.kspec("r", k)
-        return ["C15.execx r %s %s" % (tok_list(self.ext_tok(a) for a in case["sig"]), ks)]
+        ls = ["C15.execx r %s %s" % (tok_list(self.ext_tok(a) for a in case["sig"]), ks)]
+        if self.needs_sw(k):
+            ls.append("C15.sw r %s" % ks)
+        return ls
 
     def ext_decode(self, case, replies):
         r = replies[0].split(" ")
         if r[0] != "ok":
             return {"err": r[0]}
         out = [self.ext_val(t) for t in untok(r[2])]
-        res = {"out": out, "ret": out, "input_after": [canon(num(a)) for a in case["sig"]],
+        res = {"out": out, "ret": out, "input_after": [canon(num(a)) for a in case["sig"]], "window": self.decode_sw("r", case["k"], replies[-1]),
                "kafter": None if (r[1] == "none" or case["via"] == "feat") else [self.ext_val(t) for t in untok(r[1])]}
         if case["via"] == "feat":
             res["weights_after"] = [canon(num(a)) for a in case["k"]["w"]]      # a fresh list is normalised, not the feature
@@ -756,8 +759,9 @@ class P(Prop):
 
     def ext_spec(self, case, out):
         """what the PROPERTY says of these inputs: it speaks of non-negative kernels and of weighted means of real numbers.
-        Non-negative finite weights with a positive total (and every Kernel object): the windows holding no infinite sample
-        are judged (check_nonfinite), when every window keeps a positive valid weight. Anything else (a zero / NaN / infinite
+        Non-negative finite weights with a positive total (and every Kernel object, with the sliding window the implementation
+        itself exposes): the windows holding no infinite sample are judged (check_nonfinite), when every window keeps a positive
+        valid weight. Anything else (a zero / NaN / infinite
         total, a negative weight) is outside the statement: correspondence with the model only (theorems
         list_zero_or_nan_total, nonfinite_weights_nan say what is returned)."""
         k = case["k"]
@@ -767,7 +771,10 @@ class P(Prop):
                 return None
             w, fb = [Fraction(a) for a in w], False
         else:
-            w, fb = shape_weights(k), bool(k.get("fb"))
+            # the window is the implementation's own (observed, checked for the shape the property states), never the clean tree's
+            w, fb, bad = self.weights_for(k, out)
+            if bad:
+                return bad
         v = case["sig"]
         if not domain_ok(w, [0 if isinstance(a, str) else a for a in v], fb) or index_zone(w, fb, len(v)):
             return None
